@@ -3,7 +3,9 @@ package c15
 import (
 	"context"
 	"encoding/json"
+	"errors"
 	"fmt"
+	"maps"
 	"math/rand/v2"
 	"sort"
 	"strings"
@@ -13,6 +15,8 @@ import (
 	"k8s.io/apimachinery/pkg/api/resource"
 	metav1 "k8s.io/apimachinery/pkg/apis/meta/v1"
 	"k8s.io/apimachinery/pkg/types"
+	"sigs.k8s.io/controller-runtime/pkg/client"
+	"sigs.k8s.io/controller-runtime/pkg/client/interceptor"
 
 	v1 "sigs.k8s.io/karpenter/pkg/apis/v1"
 	"sigs.k8s.io/karpenter/pkg/cloudprovider"
@@ -44,6 +48,13 @@ import (
 // the NodePool or BEFORE it gets to the edited NodePool (the NodePool's annotation is then behind its template while
 // NewNodeClaimTemplate builds the NodeClaims) — the new NodeClaims are launched the same way, the hash controller catches
 // up, and the disruption controller looks at them: NodeClaims freshly created from the edited NodePool must not be Drifted.
+// Faults during the launch (`launchFaults`): the lifecycle controller talks to the API server through an interceptor that
+// fails chosen writes (the finalizer patch, the metadata patch, the status patch) once; the controller is reconciled again
+// like the work queue would, so the launch is REPLAYED from the controller's in-memory cache of created instances. A
+// NodeClaim that ends up Launched must carry the labels of its launch choice whichever way it got there.
+// Capacity that sells out (`soldOut`): between the launch and the instance-type check two hours later the offerings the
+// NodeClaims were launched into (or all offerings) become unavailable — still listed by the provider, just not launchable
+// right now. That is no drift.
 
 type PoolEdit struct {
 	Pool  string          `json:"pool"`
@@ -68,6 +79,12 @@ type SelfIn struct {
 	// a second scheduling pass after the edit: "" = none, "after-hash" = once the hash controller has re-stamped the
 	// edited NodePool, "before-hash" = between the edit and the hash controller's run
 	Wave2 string `json:"wave2,omitempty"`
+	// one entry per reconcile of the lifecycle controller on every NodeClaim: the n-th API write of that reconcile fails
+	// (1 = the first write issued, 0 = none); one undisturbed reconcile always follows
+	LaunchFaults []int `json:"launchFaults,omitempty"`
+	// between the launch and the instance-type check 2 h later: "" = the offerings stay as they are, "launched" = every
+	// offering a NodeClaim was launched into becomes unavailable (still listed), "all" = every offering does
+	SoldOut string `json:"soldOut,omitempty"`
 }
 
 type LaunchObs struct {
@@ -84,6 +101,12 @@ type LaunchObs struct {
 	Err       string      `json:"err,omitempty"`
 	// spec.requirements of the NodeClaim as written by ToNodeClaim, custom keys only
 	Reqs []world.MinExpr `json:"reqs"`
+	// the launch itself: the labels before it, the labels the provider answered Create with, the number of Create calls,
+	// and whether each reconcile of the lifecycle controller returned an error
+	Pre      [][2]string `json:"pre"`
+	Provided [][2]string `json:"provided"`
+	Creates  int         `json:"creates"`
+	Errs     []bool      `json:"errs"`
 }
 
 type PoolObs struct {
@@ -170,6 +193,65 @@ type scripted struct {
 	*fakecp.CloudProvider
 	choice map[string]option
 	sloppy bool
+	// per NodeClaim: the labels Create answered with, and how often it was called
+	provided map[string]map[string]string
+	creates  map[string]int
+}
+
+// writeFaults fails the failAt-th write (Patch / Status().Patch of a NodeClaim) issued since the last reset.
+type writeFaults struct {
+	n, failAt int
+}
+
+func (f *writeFaults) reset(failAt int) { f.n, f.failAt = 0, failAt }
+
+func (f *writeFaults) hit(obj client.Object) error {
+	if _, ok := obj.(*v1.NodeClaim); !ok {
+		return nil
+	}
+	f.n++
+	if f.n == f.failAt {
+		return errors.New("injected API failure")
+	}
+	return nil
+}
+
+func (f *writeFaults) wrap(c client.Client) client.Client {
+	return interceptor.NewClient(c.(client.WithWatch), interceptor.Funcs{
+		Patch: func(ctx context.Context, cl client.WithWatch, obj client.Object, patch client.Patch, opts ...client.PatchOption) error {
+			if err := f.hit(obj); err != nil {
+				return err
+			}
+			return cl.Patch(ctx, obj, patch, opts...)
+		},
+		Update: func(ctx context.Context, cl client.WithWatch, obj client.Object, opts ...client.UpdateOption) error {
+			if err := f.hit(obj); err != nil {
+				return err
+			}
+			return cl.Update(ctx, obj, opts...)
+		},
+		SubResourcePatch: func(ctx context.Context, cl client.Client, sub string, obj client.Object, patch client.Patch, opts ...client.SubResourcePatchOption) error {
+			if err := f.hit(obj); err != nil {
+				return err
+			}
+			return cl.SubResource(sub).Patch(ctx, obj, patch, opts...)
+		},
+		SubResourceUpdate: func(ctx context.Context, cl client.Client, sub string, obj client.Object, opts ...client.SubResourceUpdateOption) error {
+			if err := f.hit(obj); err != nil {
+				return err
+			}
+			return cl.SubResource(sub).Update(ctx, obj, opts...)
+		},
+	})
+}
+
+func sortedPairs(m map[string]string) [][2]string {
+	out := [][2]string{}
+	for k, v := range m {
+		out = append(out, [2]string{k, v})
+	}
+	sort.Slice(out, func(a, b int) bool { return out[a][0] < out[b][0] })
+	return out
 }
 
 func (s *scripted) Create(_ context.Context, nc *v1.NodeClaim) (*v1.NodeClaim, error) {
@@ -177,8 +259,11 @@ func (s *scripted) Create(_ context.Context, nc *v1.NodeClaim) (*v1.NodeClaim, e
 	if !ok {
 		return nil, fmt.Errorf("no launch option scripted for %s", nc.Name)
 	}
+	labels := providerLabels(o, nc, s.sloppy)
+	s.creates[nc.Name]++
+	s.provided[nc.Name] = labels
 	created := &v1.NodeClaim{
-		ObjectMeta: metav1.ObjectMeta{Name: nc.Name, Labels: providerLabels(o, nc, s.sloppy), Annotations: nc.Annotations},
+		ObjectMeta: metav1.ObjectMeta{Name: nc.Name, Labels: maps.Clone(labels), Annotations: nc.Annotations},
 		Spec:       *nc.Spec.DeepCopy(),
 		Status: v1.NodeClaimStatus{ProviderID: "fake://" + nc.Name, Capacity: o.it.Capacity,
 			Allocatable: o.it.Allocatable()},
@@ -246,7 +331,7 @@ func implSelf(raw json.RawMessage) (any, error) {
 		return nil, err
 	}
 	ctx, c := w.Ctx, w.Client
-	cp := &scripted{CloudProvider: w.CP, choice: map[string]option{}, sloppy: in.Sloppy}
+	cp := &scripted{CloudProvider: w.CP, choice: map[string]option{}, sloppy: in.Sloppy, provided: map[string]map[string]string{}, creates: map[string]int{}}
 	hashCtl := nphash.NewController(c, cp)
 	validCtl := npvalidation.NewController(w.Clock, c, cp)
 	out := SelfOut{Pools: []PoolObs{}, Launches: []LaunchObs{}, Launches2: []LaunchObs{}}
@@ -345,7 +430,9 @@ func implSelf(raw json.RawMessage) (any, error) {
 	if err != nil {
 		return nil, err
 	}
-	life := lifecycle.NewController(w.Clock, c, cp, test.NewEventRecorder(), nodepoolhealth.NewState(), nil)
+	// the lifecycle controller's API writes go through the fault injector
+	faults := &writeFaults{}
+	life := lifecycle.NewController(w.Clock, faults.wrap(c), cp, test.NewEventRecorder(), nodepoolhealth.NewState(), nil)
 	driftCtl := ncdisruption.NewController(w.Clock, c, cp)
 	get := func(name string) (*v1.NodeClaim, error) {
 		nc := &v1.NodeClaim{}
@@ -374,7 +461,20 @@ func implSelf(raw json.RawMessage) (any, error) {
 			}
 			return o.Reqs[a].Op < o.Reqs[b].Op
 		})
-		if _, err := life.Reconcile(ctx, nc); err != nil {
+		o.Pre = sortedPairs(nc.Labels)
+		// one reconcile per scripted fault, then an undisturbed one — each on the NodeClaim as stored, like the work queue
+		o.Errs = []bool{}
+		for _, failAt := range append(append([]int{}, in.LaunchFaults...), 0) {
+			if nc, err = get(l.name); err != nil {
+				return err
+			}
+			faults.reset(failAt)
+			_, rerr := life.Reconcile(ctx, nc)
+			faults.reset(0)
+			o.Errs = append(o.Errs, rerr != nil)
+		}
+		o.Provided, o.Creates = sortedPairs(cp.provided[l.name]), cp.creates[l.name]
+		if o.Errs[len(o.Errs)-1] {
 			o.Err = "lifecycle-error"
 			return nil
 		}
@@ -418,12 +518,33 @@ func implSelf(raw json.RawMessage) (any, error) {
 			return nil, err
 		}
 	}
+	// capacity sells out: the offerings stay in the provider's catalogue, they just cannot be launched into right now
+	restore := map[*cloudprovider.Offering]bool{}
+	switch in.SoldOut {
+	case "launched":
+		for _, l := range launches {
+			restore[l.opt.of] = l.opt.of.Available
+		}
+	case "all":
+		for _, it := range w.CP.InstanceTypes {
+			for _, of := range it.Offerings {
+				restore[of] = of.Available
+			}
+		}
+	}
+	for of := range restore {
+		of.Available = false
+	}
 	// two hours later the instance-type check is due
 	w.Clock.Step(2 * time.Hour)
 	for _, l := range launches {
 		if err := driftOne(l, func(o *LaunchObs) **string { return &o.Later }); err != nil {
 			return nil, err
 		}
+	}
+	// ... and comes back
+	for of, was := range restore {
+		of.Available = was
 	}
 	// the edit; the hash controller re-stamps the NodePool right away unless the second wave is to run in between
 	runHash := func() error {
@@ -693,6 +814,18 @@ func genSelf(r *rand.Rand, t core.Tier) any {
 		}
 		in.Edit = e
 	}
+	// API writes failing while the NodeClaims are launched: each single write of the first reconcile (finalizer patch,
+	// metadata patch, status patch), and two failures in a row — the launch is replayed from the lifecycle controller's cache
+	if r.Float64() < 0.3 {
+		in.LaunchFaults = pick(r, [][]int{{1}, {2}, {2}, {3}, {3}, {2, 1}, {2, 2}, {3, 1}, {3, 2}, {1, 2}, {1, 3}, {2, 1, 1}})
+	}
+	// capacity selling out between the launch and the instance-type check
+	switch x := r.Float64(); {
+	case x < 0.25:
+		in.SoldOut = "launched"
+	case x < 0.35:
+		in.SoldOut = "all"
+	}
 	// the second wave: mostly in the window between the edit and the hash controller's run
 	switch x := r.Float64(); {
 	case in.Edit != nil && x < 0.4:
@@ -715,6 +848,16 @@ func selfLabels(in *SelfIn, impl any) []string {
 		l = append(l, "edit:"+in.Edit.Kind)
 	} else {
 		l = append(l, "edit:none")
+	}
+	if len(in.LaunchFaults) == 0 {
+		l = append(l, "launch-faults:none")
+	} else {
+		l = append(l, "launch-faults:"+strings.Trim(strings.ReplaceAll(fmt.Sprint(in.LaunchFaults), " ", ","), "[]"))
+	}
+	if in.SoldOut == "" {
+		l = append(l, "sold-out:none")
+	} else {
+		l = append(l, "sold-out:"+in.SoldOut)
 	}
 	seen := map[string]bool{}
 	if in.Wave2 != "" {
@@ -746,6 +889,22 @@ func selfLabels(in *SelfIn, impl any) []string {
 		}
 		if e, _ := lm["err"].(string); e != "" {
 			seen["err:"+e] = true
+		}
+		if es, _ := lm["errs"].([]any); len(es) > 1 {
+			if b, _ := lm["launched"].(bool); b {
+				if fmt.Sprint(lm["creates"]) == "1" {
+					for _, e := range es {
+						if failed, _ := e.(bool); failed {
+							seen["launched-after-failed-write"] = true
+						}
+					}
+				}
+			}
+		}
+		if _, drifted := lm["later"].(string); !drifted && in.SoldOut != "" {
+			if b, _ := lm["launched"].(bool); b {
+				seen["instance-type-check-while-launch-offering-sold-out"] = true
+			}
 		}
 		for _, kv := range asPairs(lm["labels"]) {
 			if kv[0] == "example.com/n" || kv[0] == "example.com/owner" {
@@ -779,7 +938,7 @@ func asPairs(v any) [][2]string {
 func selfOp() *core.Op {
 	return &core.Op{
 		Name: "c15.selfdrift",
-		Doc:  "end to end on the fake client: real hash controller -> real Provisioner.Schedule + CreateNodeClaims (NodeClaimTemplate.ToNodeClaim) -> every NodeClaim launched through the real lifecycle controller as each permitted (instance type, offering) -> real disruption controller (fresh, and 2 h later when the instance-type check is due) -> one NodePool edit (hashed field / non-drifting field / requirements) + hash controller -> disruption controller; optionally a SECOND scheduling pass after the edit, after or BEFORE the hash controller re-stamps the edited NodePool (NodeClaims built while the NodePool's annotation is behind its template), launched the same way and judged once the hash controller has caught up; drift verdicts judged by the specification and compared with the Lean drift model",
+		Doc:  "end to end on the fake client: real hash controller -> real Provisioner.Schedule + CreateNodeClaims (NodeClaimTemplate.ToNodeClaim) -> every NodeClaim launched through the real lifecycle controller as each permitted (instance type, offering) (optionally through an API whose writes fail: the finalizer / metadata / status patch of the launch fails once or twice and the launch is replayed from the controller's cache of created instances) -> real disruption controller (fresh, and 2 h later when the instance-type check is due, optionally after the offerings the NodeClaims were launched into — or all offerings — have become unavailable while still listed) -> one NodePool edit (hashed field / non-drifting field / requirements) + hash controller -> disruption controller; optionally a SECOND scheduling pass after the edit, after or BEFORE the hash controller re-stamps the edited NodePool (NodeClaims built while the NodePool's annotation is behind its template), launched the same way and judged once the hash controller has caught up; drift verdicts judged by the specification and compared with the Lean drift model",
 		N: func(t core.Tier) int {
 			if t == core.Thorough {
 				return 4000
@@ -852,6 +1011,20 @@ func selfOp() *core.Op {
 				c := in
 				c.Wave2 = ""
 				out = append(out, c)
+			}
+			if len(in.LaunchFaults) > 0 {
+				c := in
+				c.LaunchFaults = in.LaunchFaults[:len(in.LaunchFaults)-1]
+				out = append(out, c)
+			}
+			if in.SoldOut != "" {
+				c := in
+				c.SoldOut = ""
+				out = append(out, c)
+				if in.SoldOut == "all" {
+					c.SoldOut = "launched"
+					out = append(out, c)
+				}
 			}
 			return out
 		},
